@@ -526,7 +526,9 @@ impl Prop for C20 {
                 exec_serve(&c, sink, &c20_serve_judge);
                 // the same with the entity stream panicking instead of returning an error: if the
                 // body turns that into an error (it need not), the error is terminal like any other
-                if matches!(c.ent.fault, Some(crate::ent::Fault { kind: crate::ent::FaultKind::Err, .. })) {
+                // (not in the interpreter / sanitizer legs: after a panic the harness deliberately
+                // leaks the body, which Miri's leak check would report)
+                if !slow && matches!(c.ent.fault, Some(crate::ent::Fault { kind: crate::ent::FaultKind::Err, .. })) {
                     if let Some(f) = c.ent.fault.as_mut() {
                         f.kind = crate::ent::FaultKind::Panic;
                     }
